@@ -776,10 +776,11 @@ func definedSetHoldsTypes(c *core.Ctx, p *load.Prog, fd *ast.FuncDecl) {
 		switch coll {
 		case "primitiveTypes", "File.Enums", "File.Structs", "File.Messages", "File.Unions":
 			return true
-		case "Union.sortedFields()", "Union.Fields":
-			// union branches define record types; message fields do not
-			return true
 		}
+		// union branch names are kept in a set of their own (they are checked for
+		// clashes, but a field cannot name a branch as its type): putting them
+		// among the defined types lets `struct D { Branch b; }` through, and the
+		// self-containment analysis never sees branch structs
 		return false
 	}
 	n := 0
